@@ -274,6 +274,10 @@ def run_C16(run):
                 invariants=("CapBound",), name="cache-impl-mutant", out=False, allow_violation=True)
     if "Invariant CapBound is violated" not in r["log"]:
         raise ToolingError("XCache does not refute the off-by-one eviction: vacuous model")
+    # (1c) Apalache: the capacity/exactness/no-bad-key invariant is INDUCTIVE for the sequential abstraction, for every
+    #      capacity 0..8 over 10 keys and any number of gets (Init => IndInv; IndInv /\ Next => IndInv')
+    run.apalache("XCacheInd", ["--cinit=ConstInit", "--init=Init", "--inv=IndInv", "--length=0"], "cache-indinv-base")
+    run.apalache("XCacheInd", ["--cinit=ConstInit", "--init=IndInit", "--inv=IndInv", "--length=1"], "cache-indinv-step")
     # (2) every key sequence x capacity on a REAL cache (through the hook and through matches() with a
     #     client-installed RegexpCache); recorded runs validated against AbstractCache
     cb = {"Keys": {"k1", "k2", "k3", "bad"}, "BadKeys": {"bad"}, "Caps": {0, 1, 2, 3}, "MaxLen": 5 if q else 7, "Chunk": 64}
